@@ -471,6 +471,22 @@ func c12Positions(r *report.Run, evals *int64, orderBase int64) int64 {
 				Detail: map[string]interface{}{"source": src, "tokens": fmt.Sprint(toks)}})
 			return
 		}
+		// the end-of-input token sits on the last rune of the source (errors "at the end" are reported there)
+		if rs := []rune(src); len(rs) > 0 {
+			el, ec := 1, 0
+			for _, ch := range rs[:len(rs)-1] {
+				if ch == '\n' {
+					el, ec = el+1, 0
+				} else {
+					ec++
+				}
+			}
+			if eof := toks[len(idx)]; eof.Kind == lexer.EOF && (eof.Line != el || eof.Column != ec) {
+				r.Report(report.Violation{Sub: "position", Kind: "location", Witness: "end of input after token " + c12PosTokens[idx[len(idx)-1]].text, Order: order,
+					Detail: map[string]interface{}{"source": src, "expected": fmt.Sprintf("%d:%d", el, ec), "observed": fmt.Sprintf("%d:%d", eof.Line, eof.Column)}})
+				return
+			}
+		}
 		for k, ti := range idx {
 			t := toks[k]
 			e := c12PosTokens[ti]
